@@ -77,9 +77,9 @@ Proof.
   - cbn [pshape] in H. unfold leaf_shape in H. cbn [tmpl0].
     apply andb_prop in H as [H _]. apply andb_prop in H as [_ H]. exact H.
   - cbn [pshape] in H. cbn [tmpl0]. destruct (first_merges ks).
-    + apply andb_prop in H as [H H7]. apply andb_prop in H as [H _]. apply andb_prop in H as [H _].
+    + apply andb_prop in H as [H H7]. apply andb_prop in H as [H _].
       apply andb_prop in H as [H _]. apply andb_prop in H as [_ H3]. rewrite H3. cbn [andb].
-      destruct ks as [|k0 [|k2 r]]; try discriminate H7.
+      destruct ks as [|k0 [|k2 r]]; try discriminate H7. apply andb_prop in H7 as [_ H7].
       inversion IH as [|? ? Hk _]; subst. cbn [forallb]. rewrite (Hk _ H7). reflexivity.
     + apply andb_prop in H as [H1 H2]. unfold leaf_shape in H1.
       apply andb_prop in H1 as [H1 _]. apply andb_prop in H1 as [_ H1]. rewrite H1. cbn [andb].
